@@ -66,6 +66,13 @@ fn check(t: &mut Tape, ctx: &mut Ctx) -> CheckResult {
     let lfs = wf(ctx, "lax-wf", from_lax(&LOH::from_strict(s0.clone())), "from_strict")?;
     ensure!(ctx, lfs == Lax { d: f.d.clone(), q: vec![] }, "round-trip-lax", "from_strict(f) is not f: {}", lfs.pretty());
 
+    // the hypergraph-level conversion of a pending-free lax hypergraph is the strict hypergraph with the same lists
+    {
+        let h = plain.hypergraph.to_hypergraph();
+        let want = &s0.h;
+        ensure!(ctx, h.s == want.s && h.t == want.t && h.w == want.w && h.x == want.x, "round-trip-lax", "lax::Hypergraph::to_hypergraph differs from the strict hypergraph with the same node, label and incidence lists");
+    }
+
     // ---- composition
     let types_match = f.d.target_type() == g.d.source_type();
     let arity_match = f.d.t.len() == g.d.s.len();
